@@ -110,9 +110,9 @@ void clm_refusal_case(const std::vector<uint32_t>& dataLens, Stats& st, const ch
 }
 
 // the base name is the file name without its (last) extension, whatever characters it holds: dotted stems count in full
-void clm_stem_case(const std::string& stem, Stats& st) {
+void clm_stem_case(const std::string& stem, Stats& st, const std::string& ext = ".wav") {
 	volgen::root(); volgen::mkdirs("%big/"); volgen::mkdirs("%o/");
-	std::string p = "%big/" + stem + ".wav"; auto h = wav_head(4); h.insert(h.end(), {1, 2, 3, 4}); write_file(p, h);
+	std::string p = "%big/" + stem + ext; auto h = wav_head(4); h.insert(h.end(), {1, 2, 3, 4}); write_file(p, h);
 	std::string out = "%o/stem.clm"; remove(out.c_str());
 	Out o = guarded([&] { Archive::ClmFile::CreateArchive(out, {p}); });
 	if (stem.size() <= 8) { V_CHECK(o == Out::Ok, "CLM creation refused the " << stem.size() << "-character name " << jstr(stem)); Archive::ClmFile c(out); V_CHECK(c.GetCount() == 1 && c.GetName(0) == stem, "name " << jstr(stem) << " stored as " << jstr(c.GetName(0))); }
@@ -199,7 +199,7 @@ void run_case(Tape& t, Stats& st) {
 	default: {
 		unsigned k = unsigned(t.below(3));
 		if (k == 0) clm_name_case(6 + unsigned(t.below(7)), st);
-		else if (k == 1) { std::string stem; unsigned n = 1 + unsigned(t.below(13)); for (unsigned i = 0; i < n; ++i) stem.push_back(t.below(4) == 0 ? '.' : char('a' + t.below(26))); if (stem == "." || stem == "..") stem += "x"; clm_stem_case(stem, st); }
+		else if (k == 1) { std::string stem; unsigned n = 1 + unsigned(t.below(13)); for (unsigned i = 0; i < n; ++i) stem.push_back(t.below(4) == 0 ? '.' : char('a' + t.below(26))); if (stem == "." || stem == "..") stem += "x"; std::string ext = ".wav"; if (t.below(3) == 0 && stem.find('.') == std::string::npos) { ext = "."; unsigned en = 1 + unsigned(t.below(6)); for (unsigned i = 0; i < en; ++i) ext.push_back(char('a' + t.below(26))); } clm_stem_case(stem, st, ext); }
 		else { unsigned c = unsigned(t.below(128)), d = 1 + unsigned(t.below(127)); if (c + d > 127) d = 127 - c; if (d == 0) { c = 3; d = 4; } layer_multi_case({{c, c + d}, {c + d, c}}, t.flag(), st); st.nt(hmix(c, d) ^ 0x2F); }
 		break; }
 	}
@@ -218,6 +218,9 @@ void run_sweep(Stats& st) {
 	for (unsigned len = 7; len <= 10; ++len) if (sw("clm_name", len)) clm_name_case(len, st);
 	{ const char* stems[] = {"abcd.efg", "abcdefgh.x", "abc.defghi", "a.b.c.d.e", "a.b", "snd1.take2", "abcdefg.h", ".hidden", ".longername", "a..b", "12345678.9", "x.wav"};
 	  for (unsigned i = 0; i < sizeof stems / sizeof stems[0]; ++i) if (sw("clm_stem", i)) clm_stem_case(stems[i], st); }
+	// the limit is on the name without its extension, whatever the extension is (a length test on the whole file name would be wrong both ways)
+	{ const char* cases[][2] = {{"eightchr", ".wave"}, {"eightchr", ".w"}, {"eightchr", ".audio"}, {"ninechars", ".wv"}, {"ninechars", ".w"}, {"tenletters", ".x"}, {"sevench", ".wavefile"}, {"a", ".longextension"}, {"ninechars", ".wavx"}};
+	  for (unsigned i = 0; i < sizeof cases / sizeof cases[0]; ++i) if (sw("clm_stem_ext", i)) clm_stem_case(cases[i][0], st, cases[i][1]); }
 	// compensating frames: +d and -d in one file, same animation and different animations
 	for (unsigned c = 0; c < 128; c += 9) for (unsigned d : {1u, 2u, 5u, 64u, 127u}) for (unsigned across = 0; across < 2; ++across) {
 		if (c + d > 127) continue;
